@@ -25,7 +25,7 @@ def constructions(F, enum, within=None):
 @rule("C16", "C16.a.no-generic-error", floor=4)
 def c16a(F, R):
     """no construction of CfgError::UnexpectedError / AssertionError in code reachable from gen_full_cfg"""
-    roots = [p for p in F.fns if p.endswith("passes::manager::Manager::gen_full_cfg")]
+    roots = [p for p in F.fns if p.endswith("::Manager::gen_full_cfg")]
     if not roots:
         raise Anchor("Manager::gen_full_cfg not found")
     seen, parent = reachable_bodies(F, roots)
@@ -45,7 +45,7 @@ def c16a(F, R):
 @rule("C16", "C16.b.no-unlocated-error", floor=6)
 def c16b(F, R):
     """no DiagnosticLocation arm returns a nil file / empty range for a CfgError variant that is constructed on a reachable path"""
-    roots = [p for p in F.fns if p.endswith("passes::manager::Manager::gen_full_cfg")]
+    roots = [p for p in F.fns if p.endswith("::Manager::gen_full_cfg")]
     seen, _ = reachable_bodies(F, roots)
     built = {v for p, v, n in constructions(F, CFGERR) if p in seen or p.split("::{closure")[0] in seen}
     for meth, bad_callee in (("file", "nil"), ("range", "default")):
@@ -90,7 +90,12 @@ def c16c(F, R):
             # provenance of the set: derived from call/jump/load names minus label names
             lets = {s["pat"]["name"]: s for s in walk(f["hir"]["value"]) if s.get("k") == "Let" and s["pat"].get("k") == "PBinding"}
             src = lets.get(arg)
-            used = {x["res"] for x in walk(src["init"]) if x.get("k") == "Path" and x.get("res_kind") == "Local"} if src else set()
+            used_locals = {x["res"] for x in walk(src["init"]) if x.get("k") == "Path" and x.get("res_kind") == "Local"} if src else set()
+            used = set()
+            for l in used_locals:
+                li = lets.get(l)
+                if li is not None:
+                    used |= {short(callee_of(c) or "") for c in walk(li["init"], pats=False) if c.get("k") in ("MethodCall", "Call")}
             if {"call_names", "jump_names", "load_names", "label_names"} <= used:
                 R.ok("undefined-set-provenance", detail="undefined = (calls ∪ jumps ∪ loads) \\ labels, all LabelStringTokens of the using instructions")
             else:
